@@ -167,6 +167,31 @@ def check_table(rep, prog):
         okf = len(Lf) == 1 and items[0][1] is Lf[0] and not any(l.breaks for l in apps[0].loops)
     rep.check(okf, rule, "table entries are appended once per matching header-file line, in file order, never sorted", "PTETable._parse_header_file",
               "self.entries.append(entry)", "entries are not kept in header-file order")
+    # the table = exactly the entry rows between the start line and the "The End" row: the loader's summary is run on a
+    # sample header (rows before the table, after its end, and in a later array must not become entries)
+    if okf:
+        Lf0 = Lf[0]
+        sample = ['// header\n',
+                  '  { "01040000", "before the table", {}, "a.cpp", 1 },\n',
+                  'static struct pte_entry_struct static_pte_entry_table[PTE_TABLE_SIZE] = \n',
+                  '{\n',
+                  '  { "01040000", "Power on complete", {}, "states.cpp", 601 },\n',
+                  '  // { "01050000", "commented out", {}, "states.cpp", 602 },\n',
+                  '  { "100100**", "PS%d - Faults Cleared", {4}, "mps.cpp", 759 },\n',
+                  '  { ""        , "The End" }\n',
+                  '};\n',
+                  '  { "02050000", "after the table", {}, "b.cpp", 2 },\n',
+                  'static struct pte_entry_struct other_table[] = \n',
+                  '  { "03050000", "row of a later array", {}, "c.cpp", 3 },\n',
+                  '};\n']
+        env = pelx.with_heap(I2, {Lf0.iter: sample, Op("len", Lf0.iter): len(sample)})
+        try:
+            got, _ = pelx.run_loop(Lf0, env, [("rep", Lf0, Lf0.idx, items[0][3])])
+        except CannotEval as e:
+            raise AnalysisError("PTE table loader summary not evaluable: %s" % e)
+        rep.check(got == [4, 6], rule, "table rows are exactly the entry rows between the table's start line and its 'The End' row", "PTETable._parse_header_file",
+                  "elif TBL_END_RE.fullmatch(line): in_table = False", "on a sample header the rows taken as PTE table entries are lines %s, "
+                  "expected lines [4, 6] (rows before the table / after 'The End' / of a later array must be ignored)" % (got,))
     # field mapping of an entry line: (pattern, message, params, file, line)
     news = [e for e in I2.events if e.kind == "new" and e.data[0] == IL + "PTETableEntry"]
     okn = len(news) == 1
@@ -205,20 +230,26 @@ def check_matches(rep, prog):
               "wildcard pattern is not compiled as 'any one character per *' case-insensitively: %r" % (rex,))
     bad = None
     n = 0
+    import re as _re
+
+    def ref_match(pattern, v):
+        rx = _re.compile(pattern.replace("*", "."), _re.IGNORECASE)
+        rep_p = (v & 0xF0000000) == 0xE0000000 and (v & 0x40000) == 0x40000
+        return bool(rx.fullmatch("%08X" % v)) or (rep_p and bool(rx.fullmatch("%08X" % (v & ~0x40000))))
     for p in sample_ptes():
-        for x in {p, p & ~0x00040000 & 0xFFFFFFFF, p | 0x00040000, p ^ 1}:
-            target = "%08X" % x
-            hooks = {"m:fullmatch": lambda r_, s, target=target: (object() if s == target else None), "re.compile": lambda *a: "RE",
-                     "m:replace": lambda *a: "P"}
+        pats = {"%08X" % x for x in (p, p & ~0x00040000 & 0xFFFFFFFF, p | 0x00040000, p ^ 1)}
+        h = "%08X" % p
+        # wild cards, lower case, keys shorter / longer than a PTE, a key that is only a prefix
+        pats |= {h[:4] + "****", "**" + h[2:], h.lower(), h[:4], h[:7], h + "0", "*" * 8, h[:2] + "*" * 5}
+        for pattern in sorted(pats):
             try:
-                got = bool(evaluate(m, {pte: p, "__ops__": hooks, pat: "P"}))
+                got = bool(evaluate(m, {pte: p, pat: pattern}))
             except CannotEval as e:
                 raise AnalysisError("matches() summary not evaluable: %s" % e)
-            rep_p = (p & 0xF0000000) == 0xE0000000 and (p & 0x40000) == 0x40000
-            want_m = (p == x) or (rep_p and (p & ~0x40000) == x)
+            want_m = ref_match(pattern, p)
             n += 1
             if got != want_m and bad is None:
-                bad = "PTE %08X against a table pattern equal to %s: matches()=%s, documented=%s" % (p, target, got, want_m)
+                bad = "PTE %08X against the table pattern %r: matches()=%s, documented=%s" % (p, pattern, got, want_m)
     rep.count("match valuations", n)
     rep.check(bad is None, rule, "matches = pattern matches %08X of the PTE, or (reported error and pattern matches it with the reported flag cleared)",
               "PTETableEntry.matches", "matches", bad)
@@ -344,6 +375,8 @@ def run(rep, prog, thorough):
     check_table(rep, prog)
     check_matches(rep, prog)
     check_regexes(rep, prog)
+    from ..effects import check_no_memoised
+    check_no_memoised(rep, prog, 'C14.R2.first-match', ['io_drawer'], 'the PTE table of an earlier decode is reused although the header file given now may differ')
     c = I_const(prog)
 
 
